@@ -52,6 +52,13 @@ namespace xv
     XV_REF(ref_fdecr, r.v = opaque(x.a) - (T)1;)
     XV_REF(ref_fincr_if, r.v = x.m ? opaque(x.a) + (T)1 : x.a;)
     XV_REF(ref_fdecr_if, r.v = x.m ? opaque(x.a) - (T)1 : x.a;)
+    // self-aliased spellings (the same object on both sides)
+    XV_REF(ref_fselfadd, r.v = opaque(x.a) + opaque(x.a);)
+    XV_REF(ref_fselfsub, r.v = opaque(x.a) - opaque(x.a);)
+    XV_REF(ref_fselfmul, r.v = opaque(x.a) * opaque(x.a);)
+    XV_REF(ref_fselfdiv, r.v = opaque(x.a) / opaque(x.a);)
+    XV_REF(ref_fselfid, r.v = x.a; r.exact = true;)
+    XV_REF(ref_fselffma, T a = opaque(x.a); r.v = std::fma(a, a, a); T p = opaque(a * a); r.alt = p + a; r.has_alt = true;)
     XV_REF(ref_fsqrt, r.v = std::sqrt(opaque(x.a));)
     XV_REF(ref_fneg, r.v = fpb<T>::val(fpb<T>::bits(x.a) ^ fpb<T>::SIGN); r.exact = true;)
     XV_REF(ref_fabs, r.v = fpb<T>::val(fpb<T>::bits(x.a) & ~fpb<T>::SIGN); r.exact = true;)
@@ -124,6 +131,12 @@ namespace xv
         def_fp<ref_fmul>("mul", "bin");
         def_fp<ref_fdiv>("div", "bin");
         def_fp<ref_fsqrt>("sqrt", "un");
+        def_fp<ref_fselfadd>("selfadd", "un");
+        def_fp<ref_fselfsub>("selfsub", "un");
+        def_fp<ref_fselfmul>("selfmul", "un");
+        def_fp<ref_fselfdiv>("selfdiv", "un");
+        def_fp<ref_fselfid>("selfid", "un");
+        def_fp<ref_fselffma>("selffma", "un");
         def_fp<ref_fincr>("incr", "un");
         def_fp<ref_fdecr>("decr", "un");
         def_fp<ref_fincr_if>("incr_if", "un_mask");
